@@ -626,8 +626,11 @@ path = "src/lib.rs""#
             added_crates.insert("tokio");
         }
 
-        // Add dependencies from rust:: imports
-        for (crate_name, version_spec) in &self.rust_crate_deps {
+        // Add dependencies from rust:: imports, sorted by crate name so the manifest does not depend on
+        // HashMap iteration order (which differs from process to process).
+        let mut rust_crates: Vec<(&String, &Option<String>)> = self.rust_crate_deps.iter().collect();
+        rust_crates.sort_by(|a, b| a.0.cmp(b.0));
+        for (crate_name, version_spec) in rust_crates {
             // Skip if already added above
             if added_crates.contains(crate_name.as_str()) {
                 continue;
